@@ -340,9 +340,19 @@ def run(ctx):
                 def runner(ch, name=name, seed=seed, gran=gran):
                     one_schedule(ctx, name, seed, gran, ch)
 
-                for ch in S.dfs_schedules(runner, k, lim):
+                # complete depth-first enumeration when it fits half the budget, then an even spread of single /
+                # double (triple) deviations over the whole execution
+                n_dfs = 0
+                for ch in S.dfs_schedules(runner, k, lim // 2):
+                    n_dfs += 1
                     if len(ctx.violations) > before:
                         break
+                if n_dfs >= lim // 2 and len(ctx.violations) == before:
+                    for ch in S.spread_schedules(runner, k, lim - n_dfs, random.Random(f"{ctx.seed}:{name}:{gran}:{sseed}")):
+                        if len(ctx.violations) > before:
+                            break
+                else:
+                    ctx.count("exhaustive_dfs_" + gran)
                 ctx.count("dfs_runs_" + gran)
                 # random schedules beyond the bound
                 for j in range(40 if ctx.quick else 600):
